@@ -183,6 +183,96 @@ def run(ctx):
             lambda resp, cb=cb, text=text: tl.frames_equal(cb, tl.parse_frames_response(resp), dummy=False) or ctx.disagree(
                 "ConformerEnsemble.loads_xyz differs from the model reader", text, tl.short_frames(cb), tl.short_frames(tl.parse_frames_response(resp))))
 
+    # ------------------------------------------------------------------ large xyz texts (below / above 1 MiB, several MiB):
+    # string, stream and path readers against the model reader on the same text
+    def large_case(tag, target_chars, n_frames):
+        lr = rng.fork("large:" + tag)
+        n_at = max(2, target_chars // (45 * n_frames))
+        elems = [en.ei[en.Element[x]] for x in ("C", "N", "O", "H", "Cl", "Unknown", "Og")]
+        base = [lr.choice(elems) for _ in range(n_at)]
+        frames = [{"comment": "large " + tag, "atoms": [{"e": e, "d": 0, "x": tl.gen_coord(lr, False), "y": tl.gen_coord(lr, False),
+                                                         "z": tl.gen_coord(lr, False)} for e in base]} for _ in range(n_frames)]
+        replay = {"kind": "large-text", "tag": tag, "n_atoms": n_at, "n_frames": n_frames}
+        objs = [build_geom(en, f, ml.Molecule) for f in frames]
+        text = "".join(o.dumps_xyz() for o in objs)
+        ctx.case(f"large:{tag}:{len(text)}", True)
+        ctx.count(f"large_text:{'<' if len(text) < (1 << 20) else '>='}1MiB")
+        ctx.extra_cov.setdefault("large_texts", []).append({"tag": tag, "chars": len(text), "atoms": n_at, "frames": n_frames})
+        path = ctx.scratch / f"large_{tag}.xyz"
+        path.write_text(text)
+
+        def via_stream():
+            with open(path, "rt") as f:
+                return ml.Molecule.load_all_xyz(f)
+
+        readers = [("string", lambda: ml.Molecule.loads_all_xyz(text)), ("stream", via_stream),
+                   ("str path", lambda: ml.Molecule.load_all_xyz(str(path))), ("Path", lambda: ml.CartesianGeometry.load_all_xyz(path))]
+        if n_frames > 1:
+            readers.append(("ConformerEnsemble.load_xyz(path)", lambda: ml.ConformerEnsemble.load_xyz(str(path))))
+        results = []
+        for how, fn in readers:
+            st, r = tl.limited(fn, 120)
+            if st != "ok":
+                ctx.violation("C08:own-output-rejected", f"large xyz text {tag} ({len(text)} characters) through {how}: "
+                              f"{type(r).__name__}: {str(r)[:120]}", replay)
+                continue
+            got = [tl.canon_geom(en, x) for x in (([r[j] for j in range(r.n_conformers)]) if isinstance(r, ml.ConformerEnsemble) else r)]
+            oracle_frames(ctx, en, frames, got, f"large xyz text {tag} through {how}", replay)
+            results.append((how, got))
+        ask(f"xread 1/1 {tl.hx(text)}",
+            lambda resp, results=results, tag=tag: [
+                tl.frames_equal(got, tl.parse_frames_response(resp), dummy=False) or ctx.disagree(
+                    f"large xyz text {tag} read through {how} differs from the model reader on the same text", tag,
+                    tl.short_frames(got[:1]), resp[:200]) for how, got in results])
+
+    for tag, chars, nf in ([("above-1MiB", (1 << 20) + 30_000, 1)] if quick else
+                           [("below-1MiB", (1 << 20) - 50_000, 1), ("above-1MiB", (1 << 20) + 30_000, 1),
+                            ("3MiB", 3 * (1 << 20) + 100_000, 1), ("frames-2MiB", 2 * (1 << 20) + 50_000, 500)]):
+        ctx.check_deadline()
+        large_case(tag, chars, nf)
+
+    # ------------------------------------------------------------------ write – grow – write on ONE ensemble
+    # append / extend(list) / extend(ensemble), before and after a first dump or iteration: every xyz text holds every
+    # frame the ensemble has at that moment (its coordinate array), in order
+    def growth_history(base):
+        def make_conf():
+            sp = json.loads(json.dumps(base))
+            for a in sp["atoms"]:
+                a["x"], a["y"], a["z"] = tl.gen_coord(rng, False), tl.gen_coord(rng, False), tl.gen_coord(rng, False)
+            return build_geom(en, sp, ml.Molecule)
+
+        def dump(ens, steps):
+            want = tl.canon_ensemble(en, ens)
+            ctx.case({"growth": steps, "n": len(want), "atoms": len(base["atoms"])}, True)
+            ctx.count("ensemble_growth_dumps")
+            replay = {"kind": "growth-history", "base": base, "steps": steps}
+            st, text = tl.limited(ens.dumps_xyz)
+            if st != "ok":
+                ctx.violation("C08:dumps-xyz-raises", f"ensemble after {steps}: dumps_xyz raised {text!r}", replay)
+                return
+            st, back = tl.limited(lambda: ml.Molecule.loads_all_xyz(text))
+            if st != "ok" or len(back) != len(want):
+                ctx.violation("C08:frame-count", f"ensemble after {'; '.join(steps)}: {len(want)} conformers "
+                              f"(n_conformers={ens.n_conformers}), {len(back) if st == 'ok' else back!r} frames in the xyz text", replay)
+            else:
+                oracle_frames(ctx, en, want, [tl.canon_geom(en, g) for g in back], "ensemble after growth", replay)
+            ask("xwrite " + "#".join(tl.frame_request(w) for w in want),
+                lambda resp, text=text, steps=steps: (resp == "ok " + tl.hx(text)) or ctx.disagree(
+                    "ensemble dumps_xyz after a growth history differs from the model writer on its current arrays", steps, text[:500],
+                    (tl.unhx(resp[3:]) if resp.startswith("ok ") else resp)[:500]))
+
+        try:
+            tl.grow_ensemble(rng, en, ml, base, make_conf, dump, rng.range(0, 3))
+        except Exception as e:  # noqa: BLE001
+            ctx.disagree("growing an ensemble through the public API raised", base, repr(e), "ok")
+
+    for i in range(25 if quick else 400):
+        ctx.check_deadline()
+        gb = gen_geom_spec(rng, en, 6, False)
+        if gb["atoms"]:
+            gb["comment"] = "grow"
+            growth_history(gb)
+
     # ------------------------------------------------------------------ units: every member and alias, xyz and mol2 readers
     from harness.gen import Units as GU
     unit_tab = GU.observe()
